@@ -318,7 +318,9 @@ def verify_function(c, mutate=None, canary=False):
                 try:
                     g = boolify(X.ev(e, pst, True))
                 except (AttributeError, TypeError, Unsupported) as err:
-                    if rst.env["result"] is None or isinstance(rst.env["result"], Opt):
+                    e_ast = ast.parse(e, mode="eval") if isinstance(e, str) else e
+                    mentions_result = any(isinstance(x, ast.Name) and x.id == "result" for x in ast.walk(e_ast))
+                    if mentions_result and (rst.env["result"] is None or isinstance(rst.env["result"], Opt)):
                         # the contract speaks about a value, this path returns None: must be unreachable
                         g = z3.BoolVal(False)
                     else:
